@@ -31,7 +31,9 @@ def run_file_rename(cfg: FileRenameConfig) -> int:
         f"[[{src_link_name}#": f"[[{dest_link_name}#",
     }
     for zpath in c.get_all_zfiles(cfg.zettel_dir):
-        zcontents = zpath.read_text()
+        # newline="" keeps every line ending (\r\n, \r) exactly as it is.
+        with zpath.open(newline="") as zfile:
+            zcontents = zfile.read()
         if not any(src_str in zcontents for src_str in link_map):
             _LOGGER.debug("Skipping file that has no links", file=str(zpath))
             continue
@@ -40,5 +42,6 @@ def run_file_rename(cfg: FileRenameConfig) -> int:
         _LOGGER.info("Replacing links found in file", file=str(zpath))
         for old_link, new_link in link_map.items():
             new_zcontents = new_zcontents.replace(old_link, new_link)
-        zpath.write_text(new_zcontents)
+        with zpath.open("w", newline="") as zfile:
+            zfile.write(new_zcontents)
     return 0
